@@ -112,7 +112,7 @@ def glob_obligation(ctx, prover, pid, P, T, direction="iff"):
     r = ex.exec_fn(fn, [VRef("val", val=pv), VRef("val", val=tv)], st)
     if r is None:
         raise Inconclusive("glob_match never returns")
-    ex.assumes.append(st.guard)
+    ex.exit_guards.append(st.guard)
     spec = glob_spec(pl, pc, tl, tc, P, T)
     if direction == "iff":
         goals = {"equals-definition": r.t == spec}
@@ -189,7 +189,7 @@ def needs_transfer_obligation(ctx, prover, pid):
     dst = VEnum("Option", simp(z3.If(present, I(1), I(0))), {0: [], 1: [d]})
     st = State()
     r = ex.exec_fn(ctx.fn(ex, "needs_transfer"), [s, dst], st)
-    ex.assumes.append(st.guard)
+    ex.exit_guards.append(st.guard)
     spec = z3.Or(z3.Not(present), s.f[0].t != d.f[0].t, s.f[1].t != d.f[1].t)
 
     def witness(name, model, neg=None):
@@ -246,7 +246,7 @@ def build_plan_setup(ctx, U):
     plan = ex.exec_fn(ctx.fn(ex, "build_plan"), [VRef("val", val=src), VRef("val", val=dst), excl, VBool(wd)], st)
     if plan is None:
         raise Inconclusive("build_plan never returns")
-    ex.assumes.append(st.guard)
+    ex.exit_guards.append(st.guard)
     return ex, plan, dict(exv=exv, sp=sp, dp=dp, sm=sm, dm=dm, wd=wd, U=U)
 
 
